@@ -131,25 +131,49 @@ def convModel (dir cs : String) (xs : List Nat) : String :=
       showConv (transcode fe .utf8 xs len [] 0)
   | _, _ => "bad-op"
 
-/-! `archive_mstring` views, locale C.UTF-8.  libc's `mbrtowc` / `wcrtomb` are assumed to
-accept exactly well-formed UTF-8 / Unicode scalar values (trusted, see tools/props/C18.py). -/
+/-! `archive_mstring` views, locale C.UTF-8.  What glibc's `mbrtowc` / `wcrtomb` do there is an
+assumption of the differential engine only (no theorem uses it): the pre-2003 UTF-8 with up to
+6 bytes and 31 bits, overlong forms and surrogates rejected (probed on the glibc in use). -/
 
-/-- `archive_wstring_append_from_mbs` with a strict UTF-8 `mbrtowc`. -/
+/-- glibc `mbrtowc` in C.UTF-8: `(bytes consumed, wide character)`, `none` = EILSEQ / incomplete. -/
+def libcMbrtowc (xs : List Nat) (len : Nat) : Option (Nat × Nat) :=
+  match xs[0]? with
+  | none => none
+  | some ch =>
+    let (k, v0, mn) :=
+      if ch < 0x80 then (1, ch, 0)
+      else if 0xc2 ≤ ch ∧ ch < 0xe0 then (2, ch % 32, 0x80)
+      else if 0xe0 ≤ ch ∧ ch < 0xf0 then (3, ch % 16, 0x800)
+      else if 0xf0 ≤ ch ∧ ch < 0xf8 then (4, ch % 8, 0x10000)
+      else if 0xf8 ≤ ch ∧ ch < 0xfc then (5, ch % 4, 0x200000)
+      else if 0xfc ≤ ch ∧ ch < 0xfe then (6, ch % 2, 0x4000000)
+      else (0, 0, 0)
+    if k = 0 ∨ len < k then none else
+    let tail := (xs.drop 1).take (k - 1)
+    if tail.length ≠ k - 1 ∨ tail.any (fun b => !isCont b) then none else
+    let v := tail.foldl (fun a b => a * 64 + b % 64) v0
+    if v < mn ∨ isSurrogate v then none else some (k, v)
+
+/-- `archive_wstring_append_from_mbs` over that `mbrtowc`. -/
 def libcMbsToWcs (xs : List Nat) (len : Nat) (acc : List Nat) : Option (List Nat) :=
-  match utf8ToUnicode xs len with
-  | .ret r (some uc) =>
-    if h : 0 < r ∧ r.toNat ≤ len then libcMbsToWcs (xs.drop r.toNat) (len - r.toNat) (acc ++ [uc])
-    else none
-  | .ret 0 none => some acc
-  | _ => none
+  if len = 0 then some acc else
+  match xs[0]? with
+  | none => some acc
+  | some 0 => some acc
+  | some _ =>
+    match libcMbrtowc xs len with
+    | some (k, v) =>
+      if h : 0 < k ∧ k ≤ len then libcMbsToWcs (xs.drop k) (len - k) (acc ++ [v]) else none
+    | none => none
 termination_by len
 decreasing_by omega
 
 def isScalarB (c : Nat) : Bool := c ≤ unicodeMax && !isSurrogate c
 
-/-- `archive_string_append_from_wcs` with a strict `wcrtomb`: `?` and -1 for a non-scalar. -/
+/-- `archive_string_append_from_wcs` over glibc `wcrtomb`: `?` and -1 for a surrogate
+(the generator stays at or below U+10FFFF). -/
 def libcWcsToMbs (ws : List Nat) : Int × List Nat :=
-  ws.foldl (fun (r, out) c => if isScalarB c then (r, out ++ unicodeToUtf8 4 c) else (-1, out ++ [63])) (0, [])
+  ws.foldl (fun (r, out) c => if isSurrogate c then (-1, out ++ [63]) else (r, out ++ unicodeToUtf8 4 c)) (0, [])
 
 def showBytesView (k : String) (r : Int) (p : Option (List Nat)) : String :=
   s!"{k}={r}:" ++ (match p with | none => "null" | some b => LA.toHex b)
